@@ -13,19 +13,24 @@ class Pol(object):
     def on_read_timeout(self, *a, **kw):       # Statement.__init__ checks for this attribute
         raise NotImplementedError
 
+    delay = 0.05
+
     def make_query_plan(self, keyspace=None, query=None):
         return []
 
+    def populate(self, cluster, hosts):
+        pass
+
     def new_plan(self, keyspace, query):
-        return Plan(self.ident, keyspace)
+        return Plan(self.ident, keyspace, self.delay)
 
 
 class Plan(object):
-    def __init__(self, ident, keyspace):
-        self.ident, self.keyspace = ident, keyspace
+    def __init__(self, ident, keyspace, delay=0.05):
+        self.ident, self.keyspace, self.delay = ident, keyspace, delay
 
     def next_execution(self, host):
-        return -1
+        return self.delay
 
 
 class RowF(object):
@@ -42,8 +47,11 @@ class Timer(object):
 
 
 class ConnClass(object):
+    timers = []          # (delay, callback name) of every timer armed, in order (reset per case)
+
     @staticmethod
     def create_timer(timeout, cb):
+        ConnClass.timers.append((timeout, getattr(cb, '__name__', getattr(getattr(cb, 'func', None), '__name__', '?'))))
         return Timer()
 
 
@@ -60,6 +68,10 @@ class FakeCluster(object):
         self.connection_class = ConnClass
         self._prepared_statements = {}
         self._default_load_balancing_policy = Pol(-5)
+
+        class Meta(object):
+            dbaas = False
+        self.metadata = Meta()
 
 
 def ks(i):
@@ -84,16 +96,23 @@ def build(case):
     cluster.default_retry_policy = Pol(se['retry'])
     cluster.load_balancing_policy = Pol(se['lbp'])
     cluster.timestamp_generator = lambda: se['ts']
-    profile = cl.ExecutionProfile(load_balancing_policy=Pol(pr['lbp']), retry_policy=Pol(pr['retry']), consistency_level=pr['cl'],
+    # the profile's level is given to ExecutionProfile only when the user chose one; the session's legacy default is
+    # assigned through the real property after connect(); in between runs what Cluster.connect() runs for DBaaS clusters
+    pkw = {}
+    if case.get('profile_cl_chosen', True):
+        pkw['consistency_level'] = pr['cl']
+    profile = cl.ExecutionProfile(load_balancing_policy=Pol(pr['lbp']), retry_policy=Pol(pr['retry']),
                                   serial_consistency_level=pr['serial'], request_timeout=pr['timeout'], row_factory=RowF(pr['rowf']),
-                                  speculative_execution_policy=Pol(pr['spec']))
+                                  speculative_execution_policy=Pol(pr['spec']), **pkw)
+    profile.speculative_execution_policy.delay = case.get('spec_delay', 0.05)
+    cluster.metadata.dbaas = bool(case.get('dbaas', False))
     cluster.profile_manager.profiles[cl.EXEC_PROFILE_DEFAULT] = profile
     cluster.profile_manager.profiles['named'] = profile
     s = object.__new__(cl.Session)
     s.cluster = cluster
     s._row_factory = RowF(se['rowf'])
     s._default_timeout = se['timeout']
-    s._default_consistency_level = se['cl']
+    s._default_consistency_level = cl.Session._default_consistency_level
     s._default_serial_consistency_level = se['serial']
     s.default_fetch_size = se['fetch']
     s._protocol_version = case['pv']
@@ -103,6 +122,15 @@ def build(case):
     s.keyspace = ks(se['keyspace'])
     s._pools = {}
     s._monitor_reporter = None
+    cl.Cluster._set_default_dbaas_consistency(cluster, s)          # as Cluster.connect() does
+    if case.get('session_cl_chosen', True):
+        if case['mode'] == 'Legacy':
+            s.default_consistency_level = se['cl']                  # the user's assignment (real property setter)
+        else:
+            s._default_consistency_level = se['cl']                 # unused in profile mode
+    if case.get('added_later') and case['mode'] == 'Profiles':     # (legacy mode has no add_execution_profile)
+        # Cluster.add_execution_profile() runs the same adjustment again for every session
+        cl.Cluster._set_default_dbaas_consistency(cluster, s)
 
     def stmt_kwargs(o):
         kw = {}
@@ -146,10 +174,12 @@ def build(case):
         ep = 'named'
     elif case['mode'] == 'Profiles' and case.get('profile_ref') == 'object':
         ep = profile
+    del ConnClass.timers[:]
     try:
         f = s._create_response_future(q, params, False, None, timeout, execution_profile=ep, paging_state=paging)
     except cl.UnsupportedOperation:
         return ('raise', 'UnsupportedOperation')
+    first_timer = ConnClass.timers[0] if ConnClass.timers else None
     m = f.message
     plan = f._spec_execution_plan
     pg = getattr(m, 'paging_state', None)
@@ -160,6 +190,7 @@ def build(case):
         'lbp': getattr(f._load_balancer, 'ident', -1),
         'spec': (plan.ident, ks_id(plan.keyspace)) if isinstance(plan, Plan) else None,
         'msg': type(m).__name__,
+        'timer': None if first_timer is None else (('spec' if first_timer[1] == '_on_speculative_execute' else 'timeout'), first_timer[0]),
     }
     for k in ('cl', 'serial', 'fetch', 'ts'):
         if out[k] is not None and not isinstance(out[k], int):
@@ -274,8 +305,11 @@ def g_case(case, res):
         st = '(bound_of %s %s %s)' % (g_stmt(case['prepared']), g_stmt(expl), oz(case['meta_keyspace']))
     else:
         st = g_stmt(case['stmt'])
-    prof = '(mkProf %d %s %d %s %d %d %d)' % (pr['cl'], oz(pr['serial']), pr['retry'], oz(tz(pr['timeout'])), pr['rowf'], pr['lbp'], pr['spec'])
-    sess = '(mkSess %d %s %d %s %d %d %s %s %d %s)' % (se['cl'], oz(se['serial']), se['retry'], oz(tz(se['timeout'])), se['rowf'], se['lbp'],
+    db = 'true' if case.get('dbaas') else 'false'
+    pcl = '(configured_cl %s %s)' % (db, oz(pr['cl']) if case.get('profile_cl_chosen', True) else 'None')
+    scl = '(configured_cl %s %s)' % (db, oz(se['cl']) if case.get('session_cl_chosen', True) else 'None')
+    prof = '(mkProf %s %s %d %s %d %d %d)' % (pcl, oz(pr['serial']), pr['retry'], oz(tz(pr['timeout'])), pr['rowf'], pr['lbp'], pr['spec'])
+    sess = '(mkSess %s %s %d %s %d %d %s %s %d %s)' % (scl, oz(se['serial']), se['retry'], oz(tz(se['timeout'])), se['rowf'], se['lbp'],
                                                       oz(se['fetch']), 'true' if se['use_ts'] else 'false', se['ts'], oz(se['keyspace']))
     t = 'TNotSet' if case['timeout'] == NOT_SET else '(TSet %s)' % oz(tz(case['timeout']))
     if isinstance(res, tuple):
@@ -287,4 +321,118 @@ def g_case(case, res):
             oz(tz(res['timeout'])), zl(res['retry']), zl(res['rowf']), zl(res['lbp']), spec)
     eff = '(effective %s %s %s %s %s %s %s %d)' % (case['mode'], case['kind'], st, prof, sess, t, oz(case['paging']), case['pv'])
     enc = 'true' if isinstance(res, tuple) or 'error' not in (res.get('wire') or {}) else 'false'
-    return 'ofields_eqb %s %s && Bool.eqb (encodes_opt %s %s %d) %s' % (eff, got, case['kind'], eff, case['pv'], enc)
+    out = 'ofields_eqb %s %s && Bool.eqb (encodes_opt %s %s %d) %s' % (eff, got, case['kind'], eff, case['pv'], enc)
+    if not isinstance(res, tuple):
+        out += ' && timer_eqb (first_timer_opt %s %d) %s' % (eff, tz(case.get('spec_delay', 0.05)), g_timer(res['timer'], res['timeout']))
+    return out
+
+
+def g_timer(t, timeout):
+    """the timer armed at creation; a timeout timer is armed with the time remaining (just below the timeout)"""
+    if t is None:
+        return 'TNoTimer'
+    if t[0] == 'spec':
+        return '(TSpec %d)' % tz(t[1])
+    if timeout is not None and 0 <= timeout - t[1] < 0.2:
+        return '(TTimeout %d)' % tz(timeout)
+    return '(TTimeout %d)' % tz(t[1])
+
+
+# ---------------------------------------------------------------- configuration history on a real Cluster
+LEGACY_OPS = ('cluster.default_retry_policy', 'cluster.load_balancing_policy', 'session.default_timeout',
+              'session.default_consistency_level', 'session.default_serial_consistency_level', 'session.row_factory')
+
+
+def run_history(hist):
+    """hist: {'ctor': subset of ('lbp', 'retry', 'profiles'), 'ops': [op names]}.  A REAL Cluster is constructed and configured
+    through its real constructor / property setters / add_execution_profile; the session is object.__new__(Session) on it.
+    Returns the per-op (accepted, mode) trace and the options in effect for a plain SimpleStatement."""
+    from vf.impl import import_cluster
+    cl = import_cluster()
+    from cassandra.query import SimpleStatement
+    from cassandra.encoder import Encoder
+    names = {0: 'Uncommitted', 1: 'CLegacy', 2: 'CProfiles'}
+    assigned = {}
+    trace = []
+    kw = {}
+    if 'lbp' in hist['ctor']:
+        kw['load_balancing_policy'] = Pol(301)
+        assigned['lbp'] = 301
+    if 'retry' in hist['ctor']:
+        kw['default_retry_policy'] = Pol(302)
+        assigned['retry'] = 302
+    prof = cl.ExecutionProfile(load_balancing_policy=Pol(401), retry_policy=Pol(402), consistency_level=4, request_timeout=33.0,
+                               row_factory=RowF(403), speculative_execution_policy=Pol(404))
+    if 'profiles' in hist['ctor']:
+        kw['execution_profiles'] = {cl.EXEC_PROFILE_DEFAULT: prof}
+    try:
+        cluster = cl.Cluster(**kw)
+    except ValueError:
+        return {'ctor': 'ValueError', 'trace': [], 'assigned': assigned, 'fields': None, 'mode': None}
+    try:
+        cluster.connection_class = ConnClass
+        s = object.__new__(cl.Session)
+        s.cluster = cluster
+        s._protocol_version = 4
+        s.use_client_timestamp = False
+        s.encoder = Encoder()
+        s._metrics = None
+        s.keyspace = None
+        s._pools = {}
+        s.default_fetch_size = 5000
+        n = 500
+        for op in hist['ops']:
+            n += 1
+            try:
+                if op == 'cluster.default_retry_policy':
+                    cluster.default_retry_policy = Pol(n)
+                    assigned['retry'] = n
+                elif op == 'cluster.load_balancing_policy':
+                    cluster.load_balancing_policy = Pol(n)
+                    assigned['lbp'] = n
+                elif op == 'session.default_timeout':
+                    s.default_timeout = float(n)
+                    assigned['timeout'] = float(n)
+                elif op == 'session.default_consistency_level':
+                    s.default_consistency_level = 2
+                    assigned['cl'] = 2
+                elif op == 'session.default_serial_consistency_level':
+                    s.default_serial_consistency_level = 9
+                    assigned['serial'] = 9
+                elif op == 'session.row_factory':
+                    s.row_factory = RowF(n)
+                    assigned['rowf'] = n
+                elif op == 'add_execution_profile':
+                    cluster.add_execution_profile('p%d' % n, cl.ExecutionProfile(load_balancing_policy=Pol(n), retry_policy=Pol(n)))
+                ok = True
+            except ValueError:
+                ok = False
+            trace.append((ok, names.get(cluster._config_mode, '?')))
+        del ConnClass.timers[:]
+        f = s._create_response_future(SimpleStatement('SELECT 1'), None, False, None, cl._NOT_SET)
+        m = f.message
+        fields = {'cl': m.consistency_level, 'serial': m.serial_consistency_level, 'timeout': f.timeout,
+                  'retry': getattr(f._retry_policy, 'ident', -1), 'rowf': getattr(f.row_factory, 'ident', -1),
+                  'lbp': getattr(f._load_balancer, 'ident', -1)}
+        return {'ctor': 'ok', 'ctor_mode': None, 'trace': trace, 'assigned': assigned, 'fields': fields,
+                'mode': names.get(cluster._config_mode, '?')}
+    finally:
+        cluster.shutdown()
+
+
+def history_model_ops(hist):
+    ops = []
+    if 'lbp' in hist['ctor'] or 'retry' in hist['ctor']:
+        ops.append('SetLegacy')
+    if 'profiles' in hist['ctor']:
+        ops.append('UseProfiles')
+    n0 = len(ops)
+    for op in hist['ops']:
+        ops.append('AddProfile' if op == 'add_execution_profile' else 'SetLegacy')
+    return ops, n0
+
+
+def g_history(hist, res):
+    ops, n0 = history_model_ops(hist)
+    tr = '[' + '; '.join('(%s, %s)' % ('true' if ok else 'false', m) for ok, m in res['trace']) + ']'
+    return 'cfg_trace_eqb (skipn %d (cfg_trace Uncommitted [%s])) %s' % (n0, '; '.join(ops), tr)
